@@ -279,8 +279,10 @@ Proof.
     destruct (accepted_unshared F prime ds es x qx Hm E Hqx qx s Hqx Hsx) as (Hlen & _).
     unfold parent. rewrite Hqx, Hsx, Hgx.
     rewrite Hgx in Hlen.
-    destruct (referrers ds (fst i) s) as [|j [|j2 rs]]; simpl in *; try lia; [contradiction|].
-    destruct Hi as [->|[]]. reflexivity. }
+    destruct (referrers ds (fst i) s) as [|j [|j2 rs]]; simpl in *.
+    - contradiction.
+    - destruct Hi as [->|[]]. reflexivity.
+    - lia. }
   assert (P1 : parent ds i' = Some i) by (eapply Hpar; eauto).
   assert (P2 : parent ds i = Some i) by (eapply Hpar; eauto).
   apply (cycle_rejected F prime ds i' q' i Hm Hin) with (es := es); [| |exact E].
